@@ -123,7 +123,8 @@ CHECKS = {
         "quick": {"shards": 12, "budget_s": 75, "min_evaluations": 300},
         "thorough": {"shards": 14, "budget_s": 900, "min_evaluations": 3000},
         "rule": (
-            "evaluations = observations (RP walk after every operation + "
+            "evaluations = observations (RP walk after every repository "
+            "synchronisation task and after every operation + "
             "queue quiescence) at which the cumulative ledger of every "
             "(issuer key, serial, uri, hash, notAfter, kind) ever seen is "
             "re-classified: an entry that is no longer listed by its "
@@ -468,10 +469,11 @@ CHECKS = {
         "rule": (
             "evaluations = requests judged (route x user x CA family x "
             "transport) + login attempts. 111 routes written from "
-            "dispatch/*.rs; per pass 118-156 users: admin token, no/wrong/"
+            "dispatch/*.rs; per pass 120-158 users: admin token, no/wrong/"
             "Basic-only credentials, built-in roles, config globs, "
             "all-but-P and login+P for each of the 22 permissions with and "
-            "without cas=[..] scoping, seeded random subsets and scopes, "
+            "without cas=[..] scoping, two roles scoped to NO CA "
+            "(cas = []), seeded random subsets and scopes, "
             "Role::complex roles (per-CA grant over blanket grant), the "
             "Unix-socket peer mapped to all-but-login; testbed mode on/off "
             "alternating over shards and passes; TCP and Unix socket. A case "
@@ -521,7 +523,9 @@ CHECKS = {
             "(a) toy aggregate whose state is the append-only list of "
             "unique ids on the bare AggregateStore: 2-8 OS threads x 3-10 "
             "operations (append / rejected / no-op / pre-save-failure / "
-            "read / snapshot) on 1-3 entities, through one or two store "
+            "read / snapshot) on 1-3 entities (the first entity is CREATED "
+            "by all threads at once: exactly one may be told it created "
+            "it), through one or two store "
             "instances over the same storage, disk and memory back-ends, "
             "history cache on/off, verif yield hook (seeded per-thread "
             "sleeps/yields at lock acquisition, between locks, before/"
@@ -575,19 +579,22 @@ CHECKS = {
         "rule": (
             "evaluations = signed protocol messages handed to CaManager::"
             "rfc6492 / RepositoryManager::rfc8181 and judged: the complete "
-            "combination table (about 1130 cases in both tiers: signing-key class "
+            "combination table (about 1250 cases in both tiers: signing-key class "
             "{current, other child's/publisher's, replaced, replaced-older, "
             "random, expired CMS under the current key, forged issuer "
             "(EE cert + CRL name the registered key, signed by an attacker)} "
             "x claimed sender {kid1, kid2, unregistered} x recipient {top, "
-            "top2; one repository} x request kind (11 provisioning kinds: "
+            "top2; one repository} x request kind (13 provisioning kinds: "
             "list, list with foreign recipient field, issue without limit / "
             "subset limit / limit partly outside / unknown class / for the "
             "key certified to the other child, the same while that child is "
             "suspended at the parent (afterwards the owner is un-suspended "
             "and must hold the same key with the same resources as before), "
             "revoke other child's key, "
-            "revoke own key, reissue; 7 publication kinds: list, publish "
+            "revoke own key (a positive answer must have taken effect), "
+            "revoke own key under a class name the parent does not have, a "
+            "list request while the claimed sender is suspended (only an "
+            "authentic one may un-suspend it), reissue; 7 publication kinds: list, publish "
             "inside base, update, publish in the other publisher's base, "
             "other host, withdraw other publisher's object, withdraw own) x "
             "{before, after ca_update_id + child id update + publisher "
